@@ -70,6 +70,11 @@ theorem C18_bridge_glue (isResp isErr : Bool) :
     pins in the source and what the object-flush grid of the engine checks on the real code.) -/
 theorem C18_bridge_row_saves : DbSessionGen.rowSavesStartTransaction = true := rfl
 
+/-- the suspension test of the generator / coroutine wrapper refuses a `yield` whenever a session cache is modified OR
+    still inside a transaction (flushed but uncommitted changes): in the model both are "something is pending" -/
+theorem C18_bridge_suspend (modified inTransaction : Bool) :
+    DbSessionGen.suspendRefused modified inTransaction = (modified || inTransaction) := rfl
+
 /-! ### nested sessions: only the outermost exit commits or rolls back
 
 Bodies are arbitrary programs.  Since this round a program may also call the module-level `commit()` / `rollback()`
@@ -445,6 +450,38 @@ theorem C18_generator_inside_session (env : Env) (o : Opts) (seg : Seg) (resume 
     (hs : s.session.isSome = true) :
     wrappedInteract env o seg resume copy s = (s, copy, .raised .genInsideSession) := by
   simp [wrappedInteract, hs]
+
+/-- other sessions of the consumer on the same thread while the generator is suspended (`Seg.before`): every suspension
+    leaves the thread clean (`C18_generator_step`), so such a session runs like any top-level session — it leaves the
+    thread clean again, commits exactly its own row iff its commit goes through (a read-only one commits nothing) — and
+    the generator's next step again starts from a clean thread: the two cannot see or disturb each other's transaction -/
+theorem C18_generator_consumer_session (env : Env) (b : Between) (s : St) (hc : Clean s) :
+    Clean (betweenRun env b s).1 ∧
+    (betweenRun env b s).1.committed = s.committed ++
+      (match b with
+       | .write w => if commitOK env s.ncommit [w] then [w] else []
+       | _ => []) := by
+  refine ⟨(betweenRun_clean env b s hc).1, ?_⟩
+  cases b with
+  | none => simp [betweenRun]
+  | read =>
+    have h := cm_top env {} _ s hc readBody_inner.bal rfl
+    have hp := readBody_inner (entered {} s) (by simp [entered]) (by simp [entered])
+    obtain ⟨ws, hws⟩ := hp.pending
+    have hpend : ws = [] := by
+      have : (entered ({} : Opts) s).session.isSome = true := by simp [entered]
+      simp only [this, if_true] at hws
+      simpa using hws.symm
+    show (cm env {} _ s).1.committed = _
+    rw [h.2.1, hp.committed]
+    have hpe : (entered ({} : Opts) s).pending = [] := by simpa [entered] using hc.2.2
+    simp only [hpe, List.append_nil]
+    simp [entered]
+  | write w =>
+    have h := cm_top env {} _ s hc (writeBody_inner w).bal rfl
+    show (cm env {} _ s).1.committed = _
+    rw [h.2.1]
+    simp [addWrites, wantsCommit, Outcome.exc?, entered, hc.2.2]
 
 /-- a whole run of a wrapped generator (any resume script): clean at the end, the database only grows -/
 theorem C18_generator_run (env : Env) (o : Opts) (steps : List (Seg × Resume)) (s : St) (hc : Clean s) :
